@@ -82,7 +82,8 @@ PROPS = {
         "lean": "Originium.Props.C04",
         "suites": ["key", "crash"],
         "skeleton_funcs": FS_SKEL + ["Txn.Commit", "DB.rawset", "memtable.set"],
-        "trusted_base": DB_TB + FS_TB + ["extract/gotrans.go (DESIGN section 14) regenerates GenDB.rawset / GenDB.flushImmutable (the order of the effects of DB.rawset and DB.flushImmutable) from /repo on every run; DBTie.rawset_table / flushImmutable_table are part of this property's module"],
+        "trusted_base": DB_TB + FS_TB + ["extract/gotrans.go (DESIGN section 14) regenerates GenDB.rawset / GenDB.flushImmutable (the order of the effects of DB.rawset and DB.flushImmutable) from /repo on every run; DBTie.rawset_table / flushImmutable_table are part of this property's module",
+                                         "extract/gotrans.go also regenerates GenWal.write (WAL.Write: staging loop, the one write to the file, fsync, every error exit); WalTie.write_table / write_once / write_ack are part of this property's module; bufferpool.Pool.Get returns an empty buffer, binary.Write into a bytes.Buffer appends and cannot fail, utils.TMarshal and the 8-byte length are function parameters (their bytes are the codec suite's business)"],
         "assumptions": ["process-crash model only (a torn batch belongs to C14, which claims acknowledged commits only)",
                         "that the code is the program Prog is tied dynamically (recorded traces must be traces of Prog.act) and by the skeleton"],
         "explanation": "a transaction reaches the disk through exactly one commit event carrying its whole batch; written batches stay kept, unwritten ones are absent, for every accepted trace and for every execution of the program model Prog (ReachP); crash suite checks all-or-nothing of the in-flight transaction on every image",
@@ -91,7 +92,8 @@ PROPS = {
         "lean": "Originium.Props.C14",
         "suites": ["key", "codec", "crash"],
         "skeleton_funcs": FS_SKEL,
-        "trusted_base": DB_TB + FS_TB + ["extract/gotrans.go (DESIGN section 14) regenerates GenLevel.writeTable (levelManager.writeTable: the order of create, write, fsync, close and rename of a table file, error branches included) from /repo on every run; LevelTie.writeTable_table / writeTable_rename_after_sync are part of this property's module; the os calls are events"],
+        "trusted_base": DB_TB + FS_TB + ["extract/gotrans.go (DESIGN section 14) regenerates GenLevel.writeTable (levelManager.writeTable: the order of create, write, fsync, close and rename of a table file, error branches included) from /repo on every run; LevelTie.writeTable_table / writeTable_rename_after_sync are part of this property's module; the os calls are events",
+                                         "extract/gotrans.go also regenerates GenWal.write (WAL.Write); WalTie.write_table / write_ack (nil is returned only after the one write of the batch and a successful fsync) are part of this property's module"],
         "assumptions": ["directory operations (create, rename, remove) are ordered and durable, as the property states; only file contents after the last fsync can be lost",
                         "that the code is the program Prog is tied dynamically (recorded traces must be traces of Prog.act) and by the skeleton"],
         "explanation": "CutOf (wals keep at least their synced records, tmp files arbitrary, published tables intact) preserves Inv and WF; recover on any cut disk serves every acknowledged entry; the program model Prog with lossy crash steps (Reach) keeps Inv/WF and never emits a rejected event, recoveries after a loss included; crash suite cuts unsynced tails of every file at several lengths at every crash point",
